@@ -328,3 +328,23 @@ def parse_snap(s):
         if k and k not in d:
             d[k] = v
     return d
+
+
+def as_text_case(c):
+    """The same case with its program additionally LOADED FROM TEXT (the printed forms of the instructions, one per line,
+    through `load_program`) right after it was installed as instruction objects — the path the front end takes. The
+    `sim.prog` line stays (the oracles read the program off it); what runs is what the loader built."""
+    import impl as implmod
+    import rvasmgen
+    out = []
+    for l in c.lines:
+        if l.startswith("sim.prog"):
+            toks = l.split()[1:]
+            text = "\n".join(repr(implmod.make_instr(t)) for t in toks)
+            out.append(l)
+            out.append("sim.load " + rvasmgen.hx(text))
+        else:
+            out.append(l)
+    c.lines = out
+    c.meta = dict(c.meta, from_text=True)
+    return c
